@@ -660,11 +660,41 @@ def rule_r4(chk, p, t):
         out = {}
         body_stmts = list(walk_no_nested(fn.node))
         loops = [n for n in body_stmts if isinstance(n, ast.For)]
+        fdefs = {}
+        for n in body_stmts:
+            if isinstance(n, ast.Assign) and len(n.targets) == 1 and isinstance(n.targets[0], ast.Name):
+                fdefs.setdefault(n.targets[0].id, []).append(n.value)
+
+        def seq_elem(e):
+            """The element of a sequence that runs parallel to the models: MODEL, WT or MODEL.<attr>."""
+            if isinstance(e, ast.Name) and len(fdefs.get(e.id, [])) == 1:
+                e = fdefs[e.id][0]
+            if unparse(e) == "self.models":
+                return ast.Name(id="MODEL", ctx=ast.Load())
+            if unparse(e) == "self.model_weights":
+                return ast.Name(id="WT", ctx=ast.Load())
+            if isinstance(e, (ast.ListComp, ast.GeneratorExp)) and len(e.generators) == 1 and not e.generators[0].ifs and unparse(e.generators[0].iter) == "self.models" and isinstance(e.generators[0].target, ast.Name):
+                v = e.generators[0].target.id
+
+                class M(ast.NodeTransformer):
+                    def visit_Name(self, n):
+                        return ast.copy_location(ast.Name(id="MODEL", ctx=n.ctx), n) if n.id == v else n
+
+                import copy as _c
+
+                return M().visit(_c.deepcopy(e.elt))
+            return None
+
         for lp in loops:
-            if unparse(lp.iter) != "zip(self.models, self.model_weights)" or not (isinstance(lp.target, ast.Tuple) and len(lp.target.elts) == 2):
+            it = lp.iter
+            if not (isinstance(it, ast.Call) and call_name(it) == "zip" and isinstance(lp.target, ast.Tuple) and len(lp.target.elts) == len(it.args) and all(isinstance(x, ast.Name) for x in lp.target.elts)):
                 continue
-            mdl, wt = (unparse(x) for x in lp.target.elts)
-            ldefs = {}
+            elems = [seq_elem(a) for a in it.args]
+            if any(e is None for e in elems) or not any(unparse(e) == "WT" for e in elems):
+                continue
+            bind = {x.id: e for x, e in zip(lp.target.elts, elems)}
+            mdl, wt = "MODEL", "WT"
+            ldefs = dict(bind)
             for st in lp.body:
                 if isinstance(st, ast.Assign) and len(st.targets) == 1 and isinstance(st.targets[0], ast.Name):
                     ldefs[st.targets[0].id] = st.value
